@@ -159,3 +159,9 @@ pub(crate) fn age_of(f: &mut ReplicationFetcher, d: Duration) -> bool {
     }
     ok
 }
+
+/// Read-only copies of `distance_range` and `farthest_acceptable_distance` of a fetcher owned by a
+/// `SwarmDriver` (used by `event::verif`).
+pub(crate) fn bounds_of(f: &ReplicationFetcher) -> (Option<U256>, Option<Distance>) {
+    (f.distance_range, f.farthest_acceptable_distance)
+}
